@@ -3,12 +3,12 @@
 #   <seed-dir> holds patch.diff and seeddemo/demo_test.go (as produced by a sub-agent or stored in /verif/seeded/<id>)
 set -u
 export GOFLAGS=-mod=mod GOPROXY=off GOSUMDB=off GOTOOLCHAIN=local
-SD="$1"; PROP="$2"; shift 2
+SD="$(cd "$1" && pwd)"; PROP="$2"; shift 2
 CHECKS="${*:-$PROP}"
 WT=$(mktemp -d /tmp/sv-XXXXXX)
 trap 'git -C /repo worktree remove --force "$WT" >/dev/null 2>&1; rm -rf "$WT"; rm -rf /verif/bin/alt-*' EXIT
 rmdir "$WT"; git -C /repo worktree add -q "$WT" HEAD || exit 3
-mkdir -p "$WT/seeddemo"; cp "$SD"/seeddemo/*.go "$WT/seeddemo/" 2>/dev/null || cp "$SD"/demo_test.go "$WT/seeddemo/" || { echo "no demo"; exit 3; }
+mkdir -p "$WT/seeddemo"; cp "$SD"/demo_test.go "$WT/seeddemo/" 2>/dev/null || cp "$SD"/seeddemo/*.go "$WT/seeddemo/" || { echo "no demo"; exit 3; }
 echo "== demo WITHOUT the change (must pass)"
 (cd "$WT" && go test -count=1 ./seeddemo 2>&1 | tail -3); A=${PIPESTATUS[0]}
 (cd "$WT" && git apply "$SD/patch.diff") || { echo "PATCH DOES NOT APPLY"; exit 3; }
